@@ -45,6 +45,15 @@ fn eval_inner(req: &str) -> Case {
         "rcmp3" => crate::pure::eval_rcmp3(req, f[1], f[2], f[3]),
         "term2" => crate::pure::eval_term2(req, f[1], f[2]),
         "bset2" => crate::vset::eval_bset2(req, f[1].parse().unwrap(), f[2].parse().unwrap()),
+        "sv1" => crate::misc::eval_sv1(req, f[1].parse().unwrap(), f[2].parse().unwrap(), f[3].parse().unwrap()),
+        "svcmp" => crate::misc::eval_svcmp(req, f[1], f[2]),
+        "svparse" => crate::misc::eval_svparse(req, &req["svparse|".len()..]),
+        "offline" => crate::misc::eval_offline(req, f[1], f[2]),
+        "serde_range" => crate::misc::eval_serde_range(req, f[1]),
+        "serde_legacy" => crate::misc::eval_serde_legacy(req, f[1], f[2], f[3]),
+        "serde_semver" => crate::misc::eval_serde_semver(req, f[1].parse().unwrap(), f[2].parse().unwrap(), f[3].parse().unwrap()),
+        "serde_provider" => crate::misc::eval_serde_provider(req, f[1], f[2], f[3].parse().unwrap()),
+        "det" => crate::misc::eval_det(req, f[1], f[2], f[3].parse().unwrap(), f[4]),
         "report" => crate::report::eval_report(f[1], f[2]),
         "collapse" => crate::report::eval_collapse(f[1], f[2], f[3], f[4].parse().unwrap()),
         "solve" => {
